@@ -974,6 +974,10 @@ func (e *Enc) evalBinarySpec(x SBinary, ctx *specCtx) *Val {
 				o = b
 			}
 			r = "(= " + o.L[0] + " 0)"
+		case len(a.L) == 2 && len(b.L) == 2 && a.T != nil && isPointerType(a.T) && a.Root != nil && b.Root != nil && typeKey(a.Root) != typeKey(b.Root):
+			// pointers into objects of different types: different objects (references are
+			// numbered per type, so the numbers may coincide); equal only if both are nil
+			r = "(and (= " + a.L[0] + " 0) (= " + b.L[0] + " 0))"
 		case len(a.L) == 2 && len(b.L) == 2 && a.T != nil && isPointerType(a.T):
 			// pointers: nil is ref 0 whatever the index
 			r = "(and (= " + a.L[0] + " " + b.L[0] + ") (or (= " + a.L[0] + " 0) (= " + a.L[1] + " " + b.L[1] + ")))"
